@@ -612,7 +612,8 @@ class Oracle:
         self.last = {}                   # priority -> code | None, as commanded
         self.timed = target.ci["meta"]["minOnOff"] and ((cfg.get("on") or 0) > 0 or (cfg.get("off") or 0) > 0)
         self.prev = None                 # previous (pv, slots)
-        self.hold = None                 # (value code, t0, until, broken?)
+        self.hold = None                 # (value code, t0, until)
+        self.rel = None                  # end of the most recent hold started (us)
         self.n_fail = 0
 
     def fail(self, kind, what, **f):
@@ -686,11 +687,21 @@ class Oracle:
         self.prev = (pv, slots)
 
     def check_hold(self, ev, cmd_idx, pv, slots, ppv, pslots, now_us):
-        """min on/off, on observations only.  A hold = (state v, taken at t0, until)."""
+        """min on/off, on observations only, no model involved.
+        hold = (state v, taken at t0, until): v must stay in slot 6 and be the present
+               value until `until`, as long as no command at priority <= 6 intervenes;
+        rel  = end of the most recent hold that was STARTED: from then on slot 6 must be
+               Null at every observation until a new hold starts — whatever was commanded
+               in between (an override at priority 1..5 may flip the state, the release
+               must still happen: the unchanged code leaves the timer armed)."""
         s6, ps6 = slots[5], pslots[5]
         tm = dict(on=self.cfg.get("on"), off=self.cfg.get("off"))
+        if cmd_idx == 6:
+            self.rel = None               # the user took the mechanism's slot: nothing to say
         # when did a change of the present value seen at this event happen?
         t_change = now_us if ev[0] in ("w", "t") else None
+        if ev[0] == "a" and self.rel is not None and now_us >= self.rel:
+            t_change = self.rel           # the real scheduler fired at the deadline
         if self.hold is not None:
             v, t0, until = self.hold
             if now_us < until:
@@ -699,28 +710,28 @@ class Oracle:
                               "slot 6 = %r, present value = %r" % (v, t0, until, now_us, s6, pv), **tm)
                     self.hold = None
                 return
-            # the time is over at this observation
-            self.hold = None
-            if ev[0] == "a":
-                t_change = until          # the real scheduler released the slot at the deadline
-            if pv == ppv and s6 is not None and self.last.get(6) is None:
-                self.fail("hold-not-released", "slot 6 still holds %r at %d us, the hold ended at %d us"
-                          % (s6, now_us, until), **tm)
-                return
+            self.hold = None              # its time is over at this observation
         if pv != ppv:
             if t_change is None:
-                return                    # changed at an unknown instant inside an advance
+                self.rel = None           # changed at an unknown instant inside an advance
+                return
             h = self.hold_time(pv) * 1000000
             if h > 0:
-                if now_us < t_change + h:
+                self.rel = t_change + h   # a hold starts (the timer is re-armed)
+                if now_us < self.rel:
                     if s6 != pv:
                         self.fail("hold-not-taken", "present value became %r at %d us (minimum time %d us) but "
                                   "slot 6 = %r at %d us" % (pv, t_change, h, s6, now_us), **tm)
                     else:
-                        self.hold = (pv, t_change, t_change + h)
+                        self.hold = (pv, t_change, self.rel)
             elif ev[0] == "w" and cmd_idx != 6 and s6 != ps6:
                 self.fail("hold-without-time", "present value became %r, whose minimum time is 0, but slot 6 "
                           "went from %r to %r" % (pv, ps6, s6), **tm)
+        # "... and release the slot afterwards"
+        if self.rel is not None and now_us >= self.rel and self.last.get(6) is None and s6 is not None:
+            self.fail("hold-not-released", "the last hold started ended at %d us; at %d us slot 6 still holds %r "
+                      "(present value %r)" % (self.rel, now_us, s6, pv), **tm)
+            self.rel = None               # reported once per hold
 
 
 # ---------------------------------------------------------------- running histories
@@ -959,35 +970,53 @@ def gen_random(rng, ci, n, timed=False, avoid6=False, wire=False):
     return evs
 
 
-def directed_timed(on, off):
-    """a state change forced by priority 3 in the middle of a hold (the timer must be
-    re-armed for the new state), observations a quarter second around every deadline,
-    release of the override, a second round the other way"""
+def directed_timed(on, off, flip=0):
+    """state changes forced by priorities 1..5 in the middle of a hold (the timer must
+    be re-armed for a timed new state, and must keep running for an untimed one: the
+    slot is released when the ORIGINAL minimum time is over), observations a quarter
+    second around every deadline, release of the override, nested changes.
+    flip=1: the mirror image (object starts active, `inactive` is commanded first)."""
     q = 250000
     evs, t = [], 0
+    a, b = (on, off) if not flip else (off, on)       # a: time of the state commanded first
+
+    def v(x):
+        return x ^ flip
 
     def adv(d):
         nonlocal t
         t += d
         evs.append(("a", t))
-    evs.append(("w", "pv", 1, None, 8))               # active, held `on`
+    evs.append(("w", "pv", v(1), None, 8))            # first state, held `a`
     adv(q)
-    evs.append(("w", "pv", 0, None, 3))               # override: inactive, held `off` from here
+    evs.append(("w", "pv", v(0), None, 3))            # override: other state, held `b` from here
     for _ in range(2):
-        adv(max(q, min(on, off) * 1000000 - 2 * q))
+        adv(max(q, min(a, b) * 1000000 - 2 * q))
         adv(q); adv(q); adv(q)
-        adv(max(q, abs(on - off) * 1000000 - 2 * q))
+        adv(max(q, abs(a - b) * 1000000 - 2 * q))
         adv(q); adv(q); adv(q)
-    evs.append(("w", "pv", None, None, 3))            # override gone: priority 8 (active) wins again
+    evs.append(("w", "pv", None, None, 3))            # override gone: priority 8 wins again
     adv(q)
-    evs.append(("w", "pv", 0, None, 2))
+    evs.append(("w", "pv", v(0), None, 2))
     adv(q)
-    evs.append(("w", "pv", 1, None, 1))               # two changes inside each other's holds
-    adv(max(on, off) * 1000000 + q)
+    evs.append(("w", "pv", v(1), None, 1))            # two changes inside each other's holds
+    adv(max(a, b) * 1000000 + q)
     evs.append(("w", "pv", None, None, 1))
     evs.append(("w", "pv", None, None, 2))
-    adv((on + off) * 1000000 + q)
+    adv((a + b) * 1000000 + q)
     adv(11000000)
+    # an override at every priority 1..5 in the middle of a fresh hold, then past its end
+    for p in (5, 4, 1):
+        evs.append(("w", "pv", None, None, 8))
+        adv((a + b) * 1000000 + q)                    # everything released, first state's opposite
+        evs.append(("w", "pv", v(1), None, 8))        # hold of the first state starts
+        adv(2 * q)
+        evs.append(("w", "pv", v(0), None, p))        # flipped during the hold
+        adv(max(q, a * 1000000 - 3 * q))
+        adv(q); adv(q)                                # ... across the end of the ORIGINAL hold
+        adv(max(a, b) * 1000000 + q)
+        evs.append(("w", "pv", None, None, p))
+        adv(max(a, b) * 1000000 + q)
     return evs
 
 
@@ -1094,8 +1123,10 @@ def shard(ctx, spec):
         rng = ctx.sub_rng("c17-mo/%s/%s/%d/%d/%d" % (cname, kind, on, off, idx))
         cfg = {"def": 0, "pv": 0, "on": on, "off": off}
         run_timed(ctx, "minonoff-" + kind, kind, cname, cfg, gen_random(rng, ci, n, timed=True, avoid6=True, wire=(kind != "direct")))
-        if kind == "direct":
+        if kind in ("direct", "wire"):
             run_timed(ctx, "minonoff-directed", kind, cname, cfg, directed_timed(on, off))
+            run_timed(ctx, "minonoff-directed", kind, cname, dict(cfg, **{"def": 1, "pv": 1}),
+                      directed_timed(on, off, flip=1))
     elif what == "corpus":
         run_corpus(ctx)
     else:
@@ -1202,7 +1233,8 @@ def run(ctx):
             pairs = [(a, b) for a in times for b in times]
             if ctx.quick:
                 rng = ctx.sub_rng("c17-pairs/" + cname)
-                pairs = [(0, 0), (10, 3), (3, 10), (0, 5), (5, 0), (1, 1), (10, 10)] + rng.sample(pairs, 14)
+                pairs = [(0, 0), (10, 3), (3, 10), (0, 5), (5, 0), (1, 1), (10, 10), (0, 1), (2, 0), (0, 10), (7, 0)] \
+                    + rng.sample(pairs, 10)
             for k, (a, b) in enumerate(pairs):
                 specs.append(("minonoff", cname, "direct", a, b, 0, 60 if ctx.quick else 100))
                 specs.append(("minonoff", cname, "wire", a, b, 0, 40 if ctx.quick else 100))
